@@ -18,7 +18,7 @@ struct LDelivery {
   int pid = 0; Sink *out = nullptr; bool exited = false; int status = -1;
   std::vector<LAction> actions;
   std::vector<std::string> new_files;    // maildir entries published by this delivery (canonical paths)
-  bool fault_hit = false; bool qmail_read_fault = false; bool chdir_fault = false; bool fork_fault = false;
+  bool fault_hit = false; bool qmail_read_fault = false; bool chdir_fault = false; bool fork_fault = false; bool alloc_fault = false;
   std::string user() const { return args[0]; } std::string home() const { return args[1]; } std::string local() const { return args[2]; }
   std::string dash() const { return args[3]; } std::string ext() const { return args[4]; } std::string host() const { return args[5]; }
   std::string sender() const { return args[6]; } std::string aliasempty() const { return args[7]; }
@@ -164,6 +164,7 @@ struct WorldL : World {
     LDelivery *d = owner(p); if (!d) return;
     if (e.injected) d->fault_hit = true;
     if (e.injected && e.call == C_CHDIR) d->chdir_fault = true;
+    if (e.injected && e.call == C_MALLOC) d->alloc_fault = true;
     if (e.injected && (e.call == C_FORK || e.call == C_PIPE) && e.proc && e.proc->role == "qmail-local") d->fork_fault = true;
     if (e.injected && e.call == C_READ && e.path.find("/.qmail") != std::string::npos) d->qmail_read_fault = true;
     bool is_child = p->role == "qmail-local/child";
@@ -317,6 +318,16 @@ struct WorldL : World {
         if (sig || code != 111) { violate("C13.fork-failure-not-deferred", d->id + ": fork or pipe failed inside qmail-local, which exited " + std::to_string(code) + " (\"" + printable(d->out->data, 80) + "\") after " + std::to_string(d->actions.size()) + " actions"); return; }
         bool prefix = d->actions.size() <= R.actions.size(); for (size_t q = 0; prefix && q < d->actions.size(); q++) if (d->actions[q].kind != R.actions[q].kind) prefix = false;
         if (!prefix) { violate("C13.instruction-sequence", d->id + ": after a failing fork the executed instructions are not a prefix of the documented sequence"); return; }
+      }
+    }
+    // out of memory somewhere in the delivery: either it did not matter (the documented outcome, completely), or the delivery is deferred
+    // at that point - what ran before ran as documented, nothing else runs, and it is not reported as done or as failed for good
+    if (c13 && d->alloc_fault && !d->fork_fault && !d->chdir_fault && !d->qmail_read_fault && !had_crash) {
+      RefResult R = ref_interpret(d); res->nontrivial = true; k->probe("alloc_failure_in_delivery");
+      if (!R.indeterminate && !sig) {
+        bool same = code == R.code && d->actions.size() == R.actions.size(); for (size_t q = 0; same && q < d->actions.size(); q++) if (d->actions[q].kind != R.actions[q].kind) same = false;
+        bool prefix = d->actions.size() <= R.actions.size(); for (size_t q = 0; prefix && q < d->actions.size(); q++) if (d->actions[q].kind != R.actions[q].kind) prefix = false;
+        if (!same && !(code == 111 && prefix)) { std::string a, b; for (auto &x : d->actions) a += x.kind + " "; for (auto &x : R.actions) b += x.kind + " "; violate("C13.alloc-failure-not-deferred", d->id + ": an allocation failed inside the delivery, which exited " + std::to_string(code) + " having executed { " + a + "}; the documents give exit " + std::to_string(R.code) + " after { " + b + "}"); return; }
       }
     }
     // the home directory could not be entered (file server away, permissions): temporary failure, nothing acted on
